@@ -638,6 +638,8 @@ func run(cmd string, args []string) int {
 		return cmdCodecCheck(args)
 	case "parsefuzz":
 		return cmdParseFuzz(args)
+	case "concurrent":
+		return cmdConcurrent(args)
 	}
 	fmt.Fprintln(os.Stderr, "unknown command", cmd)
 	return 2
